@@ -417,7 +417,8 @@ class TypeTransformer:
                 if data.lower() in self.TRUE_VALUES:
                     return 1
             elif isinstance(data, t):
-                return data
+                # like the first branch (a bool taken out of [True] is converted too: True -> 1)
+                return t(data)
 
         try:
             data = Decimal(data)
